@@ -701,14 +701,22 @@ def lift(x):
     return _poly._rv(lift0(x))
 
 
+def _symbolic(v):
+    if isinstance(v, Sym):
+        return not v.is_const()
+    return isinstance(v, SymB)
+
+
 def has_sym(*xs):
+    """is any argument genuinely symbolic?  (Sym constants count as concrete: arrays holding only
+    constants are cast back to float64 before real LAPACK/ufunc calls)"""
     for x in xs:
-        if is_sym(x):
+        if _symbolic(x):
             return True
         if isinstance(x, _np.ndarray):
             if x.dtype == object:
                 for v in x.flat:
-                    if is_sym(v):
+                    if _symbolic(v):
                         return True
         elif isinstance(x, (list, tuple)):
             if has_sym(*x):
